@@ -8,6 +8,12 @@ From Inst Require Import C01_now.
 
 Lemma cl_core : core_tables gen_tables.
 Proof. split; try done; by intros []. Qed.
+(* the rows future-based operations rely on: a queue parked by a polling task is still taken over by a pool thread when it is
+   rescheduled (its future may have been dropped), and a wake always leads to a reschedule *)
+Lemma cl_next_takes_waiting_for_poll : forall f, g_next (WaitingForPoll f) = Some Running. Proof. reflexivity. Qed.
+Lemma cl_resched_waiting_for_poll : forall f ne, g_resched (WaitingForPoll f) ne = (WaitingForPoll f, true). Proof. reflexivity. Qed.
+Lemma cl_wake_queue_wakes : g_wake_queue WaitingForWake = (Idle, true) /\ g_wake_queue Running = (AwokenWhileRunning, true). Proof. split; reflexivity. Qed.
+Lemma cl_drain_pend_consumes_wake : g_drain_pend AwokenWhileRunning = Running /\ g_drain_pend Running = WaitingForWake. Proof. split; reflexivity. Qed.
 Lemma cl_dormant_blocks : gen_facts.(f_dormant_blocks) = true. Proof. reflexivity. Qed.
 Lemma cl_desync_push_back : fact_desync_push_back = true. Proof. reflexivity. Qed.
 Lemma cl_desync_push_before_state : fact_desync_push_before_state = true. Proof. reflexivity. Qed.
